@@ -266,7 +266,7 @@ def _worker_job(key, job, roots, max_paths, deadline, seed, validate_cap, split_
                 ob_s = eval_obs(m, state["obs"])
             except Exception:  # noqa
                 ob_s = None
-            res["samples"].append(dict(trail="".join("T" if d else "F" for d in eng.trail[: eng.pos]), inputs=vals, observation_under_model=ob_s,
+            res["samples"].append(dict(trail="".join(("T" if d else "F") if not isinstance(d, tuple) else ("(%s=%s)" % ("=" if d[0] else "!", d[1])) for d in eng.trail[: eng.pos]), inputs=vals, observation_under_model=ob_s,
                                        obligations_discharged_on_this_path=[nm for nm, _ in obligations][:40]))
         if do_validate:
             try:
